@@ -108,6 +108,12 @@ class SqliteImpl(SqlImpl):
 
 with SqliteImpl.impl_store.impl_manager as impl:
 
+    @impl(ops.sub, Datetime(), Datetime())
+    @impl(ops.sub, Date(), Date())
+    def _sub_temporal(x, y):
+        # dates and datetimes are stored as text: `-` would subtract their leading digits
+        raise NotSupportedError("SQLite has no duration type, the difference of two dates / datetimes is not supported.")
+
     @impl(ops.round)
     def _round(x, decimals):
         if not isinstance(decimals, int):
